@@ -190,6 +190,54 @@ theorem runAccepted_some_items {cfg : Cfg} (ops : List Op) {s s' : St}
       · rw [if_neg hacc] at h
         simp at h
 
+/-- a call after which the parser is gone (panic, fuel) is not a success -/
+theorem stepOp_none_not_accepted {cfg : Cfg} {op : Op} {s : St} {it : Item}
+    (h : stepOp cfg op s = (it, none)) : Item.accepted it = false := by
+  cases op <;> simp only [stepOp] at h
+  case nextValue | valueIterNext | parserNext =>
+    generalize nextValueTop cfg s = r at h
+    rcases r with ⟨_ | _, _⟩ | _ | _ | _ <;> simp only [Prod.mk.injEq] at h <;>
+      first | (obtain ⟨rfl, _⟩ := h; rfl) | (exact absurd h.2 (by simp))
+  case nextDatum | datumIterNext =>
+    generalize nextDatumTop cfg s = r at h
+    rcases r with ⟨_ | _, _⟩ | _ | _ | _ <;> simp only [Prod.mk.injEq] at h <;>
+      first | (obtain ⟨rfl, _⟩ := h; rfl) | (exact absurd h.2 (by simp))
+  case expectValue =>
+    generalize expectValue cfg s = r at h
+    rcases r with _ | _ | _ | _ <;> simp only [Prod.mk.injEq] at h <;>
+      first | (obtain ⟨rfl, _⟩ := h; rfl) | (exact absurd h.2 (by simp))
+  case expectDatum =>
+    generalize expectDatum cfg s = r at h
+    rcases r with _ | _ | _ | _ <;> simp only [Prod.mk.injEq] at h <;>
+      first | (obtain ⟨rfl, _⟩ := h; rfl) | (exact absurd h.2 (by simp))
+  case expectEnd =>
+    generalize expectEnd s = r at h
+    rcases r with _ | _ | _ | _ <;> simp only [Prod.mk.injEq] at h <;>
+      first | (obtain ⟨rfl, _⟩ := h; rfl) | (exact absurd h.2 (by simp))
+
+/-- conversely: if every item `runHistory` produces is a success, `runAccepted` reaches a state — so the
+    hypothesis of the history theorems can be read off the items the correspondence compares -/
+theorem runAccepted_of_items {cfg : Cfg} (ops : List Op) (s : St)
+    (h : ∀ it ∈ runHistory cfg ops s, Item.accepted it = true) :
+    ∃ s', runAccepted cfg ops s = some s' := by
+  induction ops generalizing s with
+  | nil => exact ⟨s, rfl⟩
+  | cons op ops ih =>
+    simp only [runHistory] at h
+    simp only [runAccepted]
+    generalize hst : stepOp cfg op s = r at h ⊢
+    obtain ⟨it, os⟩ := r
+    cases os with
+    | none =>
+      simp only [List.mem_singleton, forall_eq] at h
+      rw [stepOp_none_not_accepted hst] at h
+      cases h
+    | some s1 =>
+      simp only at h ⊢
+      have hacc : Item.accepted it = true := h it (List.mem_cons_self ..)
+      rw [if_pos hacc]
+      exact ih s1 (fun it' hit => h it' (List.mem_cons_of_mem _ hit))
+
 /-! ### the hypotheses are satisfiable, the conclusion is not trivial -/
 
 /-- two values read by two different kinds of call, then end of input: a non-trivial accepted history
